@@ -16,6 +16,16 @@ package main
 //	                       registries, two scanner instances (B created after the edit); a: two real applications in this
 //	                       process (`wire` tag on a point nobody can fill; A is edited by a user post-processor of the first
 //	                       application). observed: `<A after the edits> | <B>` (+ ` | <start1> <start2>` for m = a)
+//	scenario  `F <hex>`  → NewProperty, then the lookups a consumer of arguments makes: Args().Find(q), Has(q), Has(q, ""),
+//	                       Has(q, "false", "true") for every stored name (as stored and with a lower-case first letter) and for
+//	                       `mapper timeLayout required Qualifier`; observed: `<P observation> | <q>=<item>,…:<bits> <q>!:<bits> …`
+//	scenario  `B m <hex>` → a struct field tagged prefix:"<text>" is scanned by the real prefix scanner and the property's
+//	                       Unmarshall is handed a map: which TagName reached mapstructure (`ok Y|J|T|M|F` | `err` | `panic`)
+//	scenario  `B t <hex> <hexvalue>` → the same with a time.Time field and Unmarshall(<value text>): the bound civil time
+//	                       (`ok <year> <month> <day> <hour> <min> <sec> <nsec>` | `err` | `panic`); a leading `# ` marks a case
+//	                       whose layout is outside the language the model has of time.Parse (oracle only)
+//	scenario  `# B M|T|V …` → the same end to end through app.Run with a raw YAML document (M, T: prefix tag; V: value tag
+//	                       `${key},args`); not modelled, judged by the oracles only
 //	observation          `<tagval> <args> <required>` | `panic`
 //
 // Oracles (evaluated on the real code only, independent of the model):
@@ -28,7 +38,16 @@ package main
 //     property created from text T2 is exactly what T2 says — equal to the property the same route gave before the edits
 //     and, for well-formed text, to what the harness' own reader (tagReadOwn, not the library's parser) reads off the
 //     text (tag-history); an application whose only point has no candidate starts only when the point's tag text says
-//     required=false, whatever happened in earlier applications of the process (tag-history-start).
+//     required=false, whatever happened in earlier applications of the process (tag-history-start);
+//   - an argument's values are the space-separated items, as written, empty ones included: Find(name) — either first-letter
+//     case — yields exactly the items the text has (tagReadOwn / the generator's rendering), Has(name) and Has(name, item)
+//     hold for them, a name the text does not have is not found (tag-find);
+//   - totality extends to the consumers of a legal tag: Property.Unmarshall on a property whose tag carries `mapper` /
+//     `timeLayout` in any legal form (bare, `name=`, with items) does not panic (tag-bind-panic);
+//   - an argument's item reaches its consumer as written: with `timeLayout=<item>` (one item) a time.Time property binds
+//     a text exactly as time.Parse(<item>, text) reads it — the same time, or an error when that fails (tag-timelayout);
+//     with `mapper=<item>` a struct binds exactly as mapstructure does with TagName <item> (tag-mapper). Arguments with
+//     several items are left to the model (the library uses the first item).
 
 import (
 	"fmt"
@@ -36,13 +55,18 @@ import (
 	"sort"
 	"strconv"
 	"strings"
+	"time"
 
 	"github.com/go-kid/ioc/app"
 	"github.com/go-kid/ioc/component_definition"
+	"github.com/go-kid/ioc/configure/loader"
 	"github.com/go-kid/ioc/container"
 	"github.com/go-kid/ioc/container/processors"
 	"github.com/go-kid/ioc/container/support"
 	"github.com/go-kid/ioc/syslog"
+	"github.com/go-kid/strconv2"
+	"github.com/mitchellh/mapstructure"
+	"gopkg.in/yaml.v3"
 
 	"verifharness/internal/hx"
 )
@@ -152,6 +176,8 @@ func runTagP(text string, exp *tagExpect, tags []string, w *hx.Writer) {
 			l2, ok2 := p.Args().Find(component_definition.ArgType(upper))
 			if !ok1 || !ok2 || !reflect.DeepEqual(l1, l2) {
 				c.Oracle = fmt.Sprintf("FAIL tag-case name=%q", a.name)
+			} else if !sameItems(l1, a.items) {
+				c.Oracle = fmt.Sprintf("FAIL tag-find Find(%q) yields %q, the text has the items %q", lower, l1, a.items)
 			}
 		}
 	}
@@ -947,8 +973,703 @@ func genTagH(r *hx.Rng, w *hx.Writer) {
 	runTagH(mode, cfg, t, ops, t2, exp2, tags, w)
 }
 
+/* ---------- lookups through the public API (scenario F) ---------- */
+
+func sameItems(a, b []string) bool {
+	if len(a) != len(b) {
+		return false
+	}
+	for i := range a {
+		if a[i] != b[i] {
+			return false
+		}
+	}
+	return true
+}
+
+func lowFirst(s string) string {
+	if s != "" && s[0] >= 'A' && s[0] <= 'Z' {
+		return string(s[0]+32) + s[1:]
+	}
+	return s
+}
+
+var tagFixedQueries = []string{"mapper", "timeLayout", "required", "Qualifier"}
+
+func tagBit(b bool) string {
+	if b {
+		return "1"
+	}
+	return "0"
+}
+
+// runTagF: the lookups a consumer of arguments makes, on the property the real parser built from `text`
+func runTagF(text string, exp *tagExpect, tags []string, w *hx.Writer) {
+	c := hx.Case{Scn: "F " + hx.Hex(text), Tags: tags}
+	var p *component_definition.Property
+	var obs []string
+	find := func(q string) ([]string, bool) { return p.Args().Find(component_definition.ArgType(q)) }
+	has := func(q string, wants ...string) bool { return p.Args().Has(component_definition.ArgType(q), wants...) }
+	pan := hx.Guard(func() {
+		p = component_definition.NewProperty(nil, component_definition.PropertyTypeComponent, "wire", text)
+		stored := propArgs(p)
+		names := make([]string, 0, len(stored))
+		for k := range stored {
+			names = append(names, k)
+		}
+		sort.Strings(names)
+		var qs []string
+		for _, k := range names {
+			qs = append(qs, k)
+			if l := lowFirst(k); l != k {
+				qs = append(qs, l)
+			}
+		}
+		qs = append(qs, tagFixedQueries...)
+		for _, q := range qs {
+			o := hx.Hex(q)
+			if items, ok := find(q); ok {
+				var its []string
+				for _, it := range items {
+					its = append(its, hx.Hex(it))
+				}
+				o += "=" + strings.Join(its, ",")
+			} else {
+				o += "!"
+			}
+			obs = append(obs, o+":"+tagBit(has(q))+tagBit(has(q, ""))+tagBit(has(q, "false", "true")))
+		}
+	})
+	if pan != nil {
+		c.Obs, c.Oracle = "panic", "FAIL tag-panic lookups: "+fmt.Sprint(pan)
+		w.Put(c)
+		return
+	}
+	c.Obs = obsProperty(p) + " | " + strings.Join(obs, " ")
+	// what the TEXT says: from the generator for structured tags, from the harness' own reader for well-formed text
+	if exp == nil {
+		if e, ok := tagReadOwn(text); ok {
+			exp = e
+		}
+	}
+	if exp != nil {
+		pan := hx.Guard(func() {
+			named := map[string]bool{}
+			for _, a := range exp.args {
+				named[upFirst(a.name)] = true
+				for _, q := range []string{lowFirst(a.name), upFirst(a.name)} {
+					items, ok := find(q)
+					switch {
+					case !ok:
+						c.Oracle = fmt.Sprintf("FAIL tag-find the text %q has the argument %q, Find(%q) does not find it", text, a.name, q)
+					case !sameItems(items, a.items):
+						c.Oracle = fmt.Sprintf("FAIL tag-find the text %q gives %q the items %q, Find(%q) yields %q", text, a.name, a.items, q, items)
+					case !has(q):
+						c.Oracle = fmt.Sprintf("FAIL tag-find the text %q has the argument %q, Has(%q) denies it", text, a.name, q)
+					}
+					for _, it := range a.items {
+						if c.Oracle == "" && !has(q, it) {
+							c.Oracle = fmt.Sprintf("FAIL tag-find the text %q gives %q the item %q, Has(%q, %q) denies it", text, a.name, it, q, it)
+						}
+					}
+				}
+			}
+			for _, q := range tagFixedQueries {
+				if _, ok := find(q); ok && !named[upFirst(q)] && c.Oracle == "" {
+					c.Oracle = fmt.Sprintf("FAIL tag-find the text %q has no argument %q, Find finds one", text, q)
+				}
+			}
+		})
+		if pan != nil {
+			c.Oracle = "FAIL tag-panic lookups: " + fmt.Sprint(pan)
+		}
+	}
+	w.Put(c)
+}
+
+/* ---------- Property.Unmarshall: the consumers of `mapper` and `timeLayout` (scenario B) ---------- */
+
+// tagBindTarget: every way mapstructure can be told to match keys gives N another value
+type tagBindTarget struct {
+	N string `yaml:"yn" json:"jn" toml:"tn" mapstructure:"mn"`
+}
+
+func tagBindDoc() map[string]any {
+	return map[string]any{"yn": "Y", "jn": "J", "tn": "T", "mn": "M", "n": "F"}
+}
+
+var tagTimeType = reflect.TypeOf(time.Time{})
+
+// tagScanPrefix: a run-time struct whose field F (type ft) carries prefix:"text", scanned by the REAL prefix scanner;
+// returns the property of F and the component. ok=false: reflect.StructTag does not read the quoted text back
+func tagScanPrefix(ft reflect.Type, text string) (p *component_definition.Property, comp reflect.Value, ok bool, fail string) {
+	st, ok := tagFieldStruct("prefix", ft, text)
+	if !ok {
+		return nil, comp, false, ""
+	}
+	comp = reflect.New(st)
+	scanner, isScanner := processors.NewPropertiesAwarePostProcessors().(container.DefinitionRegistryPostProcessor)
+	if !isScanner {
+		return nil, comp, true, "FAIL tag-scan the prefix processor is no longer a definition scanner"
+	}
+	reg := support.DefaultDefinitionRegistry()
+	if err := scanner.PostProcessDefinitionRegistry(reg, comp.Interface(), "c"); err != nil {
+		return nil, comp, true, "FAIL tag-scan scanning failed: " + err.Error()
+	}
+	for _, q := range reg.GetMetaByName("c").GetAllProperties() {
+		if q.StructField.Name == "F" {
+			p = q
+		}
+	}
+	if p == nil {
+		return nil, comp, true, "FAIL tag-scan a tagged field produced no property"
+	}
+	return p, comp, true, ""
+}
+
+func tagShowTime(t time.Time) string {
+	t = t.UTC()
+	return fmt.Sprintf("ok %d %d %d %d %d %d %d", t.Year(), int(t.Month()), t.Day(), t.Hour(), t.Minute(), t.Second(), t.Nanosecond())
+}
+
+// tagLayoutModelled: the layouts the model has of time.Parse — literals and the chunks 2006 01 02 15 04 05
+func tagLayoutModelled(l string) bool {
+	for i := 0; i < len(l); {
+		c := l[i]
+		switch {
+		case c >= '0' && c <= '9':
+			switch {
+			case strings.HasPrefix(l[i:], "2006"):
+				i += 4
+			case strings.HasPrefix(l[i:], "01"), strings.HasPrefix(l[i:], "02"), strings.HasPrefix(l[i:], "15"),
+				strings.HasPrefix(l[i:], "04"), strings.HasPrefix(l[i:], "05"):
+				i += 2
+			default:
+				return false
+			}
+		case strings.IndexByte("JMPpZ_", c) >= 0:
+			return false
+		default:
+			i++
+		}
+	}
+	return true
+}
+
+// ownArg: the items the TEXT gives the argument `name` (either first-letter case; the last one of a repeated name)
+func ownArg(exp *tagExpect, name string) ([]string, bool) {
+	for _, a := range exp.args {
+		if upFirst(a.name) == upFirst(name) {
+			return a.items, true
+		}
+	}
+	return nil, false
+}
+
+// refMapper: what mapstructure itself binds with TagName = item (the consumer handed the item as written)
+func refMapper(item string) string {
+	var ref tagBindTarget
+	dec, err := mapstructure.NewDecoder(&mapstructure.DecoderConfig{Result: &ref, TagName: item, WeaklyTypedInput: true})
+	if err != nil || dec.Decode(tagBindDoc()) != nil {
+		return "err"
+	}
+	return "ok " + ref.N
+}
+
+// refTime: what time.Parse itself reads with layout = item (the consumer handed the item as written)
+func refTime(item, value string) string {
+	t, err := time.Parse(item, value)
+	if err != nil {
+		return "err"
+	}
+	return tagShowTime(t)
+}
+
+// tagE2ESafe: end to end the other processors of the pipeline see the arguments too; only these names are inert there
+func tagE2ESafe(exp *tagExpect) bool {
+	for _, a := range exp.args {
+		switch upFirst(a.name) {
+		case "TimeLayout", "Mapper", "Required":
+		default:
+			return false
+		}
+	}
+	return true
+}
+
+func tagSimpleKey(s string) bool {
+	if s == "" || len(s) > 12 {
+		return false
+	}
+	for i := 0; i < len(s); i++ {
+		if s[i] < 'a' || s[i] > 'z' {
+			return false
+		}
+	}
+	return true
+}
+
+// tagRunApp: one component with field F (type ft) tagged key:"text" through a real application over a raw YAML document
+func tagRunApp(key string, ft reflect.Type, text string, doc map[string]any) (comp reflect.Value, outcome string, ok bool) {
+	st, ok := tagFieldStruct(key, ft, text)
+	if !ok {
+		return comp, "", false
+	}
+	y, err := yaml.Marshal(doc)
+	if err != nil {
+		return comp, "", false
+	}
+	comp = reflect.New(st)
+	var runErr error
+	pan := hx.Guard(func() {
+		runErr = app.NewApp().Run(app.LogLevel(syslog.LvPanic), app.SetConfigLoader(loader.NewRawLoader(y)), app.SetComponents(comp.Interface()))
+	})
+	switch {
+	case pan != nil:
+		return comp, "panic " + fmt.Sprint(pan), true
+	case runErr != nil:
+		return comp, "err", true
+	}
+	return comp, "ok", true
+}
+
+// runTagB: kind m / t = Unmarshall called on the scanned property; M / T / V = end to end (oracle only).
+// exp = what the generator knows the text to say (nil: the harness reads the text itself when it is well-formed).
+func runTagB(kind byte, text, value string, exp *tagExpect, tags []string, w *hx.Writer) {
+	if exp == nil {
+		if e, ok := tagReadOwn(text); ok {
+			exp = e
+		}
+	}
+	isTime := kind == 't' || kind == 'T' || kind == 'V'
+	c := hx.Case{Scn: "B " + string(kind) + " " + hx.Hex(text), Tags: tags}
+	if isTime {
+		c.Scn += " " + hx.Hex(value)
+	}
+	var panMsg string
+	switch kind {
+	case 'm', 't':
+		ft := reflect.TypeOf(tagBindTarget{})
+		if isTime {
+			ft = tagTimeType
+		}
+		var p *component_definition.Property
+		var comp reflect.Value
+		var ok bool
+		var fail string
+		if pan := hx.Guard(func() { p, comp, ok, fail = tagScanPrefix(ft, text) }); pan != nil {
+			c.Obs, c.Oracle = "panic", "FAIL tag-panic prefix scanner: "+fmt.Sprint(pan)
+			w.Put(c)
+			return
+		}
+		if !ok {
+			return
+		}
+		if fail != "" {
+			c.Obs, c.Oracle = "none", fail
+			w.Put(c)
+			return
+		}
+		if isTime {
+			// outside the model's language of layouts: judged by the oracles only (the layout as the real parser stored it)
+			if items := propArgs(p)["TimeLayout"]; len(items) > 0 && !tagLayoutModelled(items[0]) {
+				c.Scn = "# " + c.Scn
+				c.Tags = append(c.Tags, "layout-unmodelled")
+			}
+		}
+		var err error
+		pan := hx.Guard(func() {
+			if isTime {
+				err = p.Unmarshall(value)
+			} else {
+				err = p.Unmarshall(tagBindDoc())
+			}
+		})
+		switch {
+		case pan != nil:
+			c.Obs, panMsg = "panic", fmt.Sprint(pan)
+		case err != nil:
+			c.Obs = "err"
+		case isTime:
+			c.Obs = tagShowTime(comp.Elem().Field(0).Interface().(time.Time))
+		default:
+			c.Obs = "ok " + comp.Elem().Field(0).Interface().(tagBindTarget).N
+		}
+	case 'M', 'T', 'V':
+		// end to end: the document holds the value under the key the TEXT names
+		c.Scn = "# " + c.Scn
+		if exp == nil || !tagE2ESafe(exp) {
+			return
+		}
+		key, tagKey := exp.val, "prefix"
+		if kind == 'V' {
+			tagKey = "value"
+			if !strings.HasPrefix(key, "${") || !strings.HasSuffix(key, "}") {
+				return
+			}
+			key = key[2 : len(key)-1]
+			// the value route hands the text to strconv2.ParseAny first (C17's matter): keep to texts it passes on unchanged
+			var pv any
+			var perr error
+			if hx.Guard(func() { pv, perr = strconv2.ParseAny(value) }) != nil || perr != nil || pv != any(value) {
+				return
+			}
+		}
+		if !tagSimpleKey(key) {
+			return
+		}
+		var comp reflect.Value
+		var outcome string
+		var ok bool
+		if kind == 'M' {
+			comp, outcome, ok = tagRunApp(tagKey, reflect.TypeOf(tagBindTarget{}), text, map[string]any{key: tagBindDoc()})
+		} else {
+			comp, outcome, ok = tagRunApp(tagKey, tagTimeType, text, map[string]any{key: value})
+		}
+		if !ok {
+			return
+		}
+		switch {
+		case strings.HasPrefix(outcome, "panic"):
+			c.Obs, panMsg = "panic", outcome[6:]
+		case outcome == "err":
+			c.Obs = "err"
+		case kind == 'M':
+			c.Obs = "ok " + comp.Elem().Field(0).Interface().(tagBindTarget).N
+		default:
+			c.Obs = tagShowTime(comp.Elem().Field(0).Interface().(time.Time))
+		}
+	default:
+		return
+	}
+	// oracles
+	switch {
+	case c.Obs == "panic":
+		c.Oracle = fmt.Sprintf("FAIL tag-bind-panic binding through a property tagged %q panics: %s", text, panMsg)
+	case exp == nil:
+	case isTime:
+		if items, has := ownArg(exp, "timeLayout"); has && len(items) == 1 {
+			c.Tags = append(c.Tags, "consumer-oracle")
+			if want := refTime(items[0], value); c.Obs != want {
+				c.Oracle = fmt.Sprintf("FAIL tag-timelayout the tag %q has timeLayout=%q; time.Parse(%q, %q) gives [%s], the property binds [%s]", text, items[0], items[0], value, want, c.Obs)
+			}
+		} else if has {
+			c.Tags = append(c.Tags, "several-items")
+		}
+	default:
+		if items, has := ownArg(exp, "mapper"); has && len(items) == 1 {
+			c.Tags = append(c.Tags, "consumer-oracle")
+			if want := refMapper(items[0]); c.Obs != want {
+				c.Oracle = fmt.Sprintf("FAIL tag-mapper the tag %q has mapper=%q; mapstructure with TagName %q binds [%s], the property binds [%s]", text, items[0], items[0], want, c.Obs)
+			}
+		} else if has {
+			c.Tags = append(c.Tags, "several-items")
+		}
+	}
+	w.Put(c)
+}
+
+func dedupeArgs(args []tagArg) []tagArg {
+	last := map[string]int{}
+	for i, a := range args {
+		last[upFirst(a.name)] = i
+	}
+	var kept []tagArg
+	for i, a := range args {
+		if last[upFirst(a.name)] == i {
+			kept = append(kept, a)
+		}
+	}
+	return kept
+}
+
+var tagChunks = []string{"2006", "01", "02", "15", "04", "05"}
+
+// genLayoutCore: 1-6 chunks with separators; blanks and commas only when `inside` (a bracket will keep them together)
+func genLayoutCore(r *hx.Rng, inside bool) string {
+	var sb strings.Builder
+	n := 1 + r.Intn(6)
+	start := 0
+	if r.P(2, 3) { // mostly in calendar order
+		start = r.Intn(len(tagChunks))
+	}
+	for i := 0; i < n; i++ {
+		if i > 0 {
+			seps := []string{"-", "/", ":", ".", "T", "", "-", ":"}
+			if inside {
+				seps = append(seps, " ", " ", ", ", ",", "  ")
+			}
+			sb.WriteString(seps[r.Intn(len(seps))])
+		}
+		if r.P(2, 3) {
+			sb.WriteString(tagChunks[(start+i)%len(tagChunks)])
+		} else {
+			sb.WriteString(tagChunks[r.Intn(len(tagChunks))])
+		}
+	}
+	return sb.String()
+}
+
+// genLayout: a layout and its shape label; every layout is ONE item of an argument unless the label says `blank`
+func genLayout(r *hx.Rng) (string, string) {
+	open, shut := "[({", "])}"
+	k := r.Intn(3)
+	switch r.Intn(16) {
+	case 0, 1, 2, 3:
+		return genLayoutCore(r, false), "plain"
+	case 4, 5, 6, 7:
+		return open[k:k+1] + genLayoutCore(r, true) + shut[k:k+1], "wrapped"
+	case 8, 9:
+		return genLayoutCore(r, false) + open[k:k+1] + genLayoutCore(r, true) + shut[k:k+1], "bracket-tail"
+	case 10:
+		j := r.Intn(3)
+		return open[k:k+1] + genLayoutCore(r, true) + shut[k:k+1] + []string{"-", "T", ""}[r.Intn(3)] + open[j:j+1] + genLayoutCore(r, true) + shut[j:j+1], "two-groups"
+	case 11:
+		j := r.Intn(3)
+		return open[k:k+1] + open[j:j+1] + genLayoutCore(r, true) + shut[j:j+1] + shut[k:k+1], "nested"
+	case 12:
+		return open[k:k+1] + genLayoutCore(r, true) + shut[k:k+1] + genLayoutCore(r, false), "bracket-head"
+	case 13:
+		return genLayoutCore(r, false) + " " + genLayoutCore(r, false), "blank"
+	case 14:
+		return []string{"[02/Jan/2006:15:04:05]", "Jan-02-2006", "(Mon)Jan-2-(2006)", "3:04PM", "[2006-01-02T15:04:05Z07:00]", "{Monday}02.01.06", "2006-01-02T15:04:05.000",
+			"[Mon Jan _2 15:04:05 2006]", "(2006.01.02 MST)"}[r.Intn(9)], "names"
+	}
+	return open[k:k+1] + genLayoutCore(r, false) + shut[k:k+1], "wrapped"
+}
+
+func genTime(r *hx.Rng) time.Time {
+	year := 1 + r.Intn(9999)
+	if r.P(1, 2) {
+		year = 1970 + r.Intn(80)
+	}
+	return time.Date(year, time.Month(1+r.Intn(12)), 1+r.Intn(31), r.Intn(24), r.Intn(60), r.Intn(60), 0, time.UTC)
+}
+
+// genBindOther: arguments next to the one under test
+func genBindOther(r *hx.Rng, e2e bool) tagArg {
+	switch k := r.Intn(6); {
+	case k < 3 || e2e:
+		name := []string{"required", "Required"}[r.Intn(2)]
+		switch r.Intn(3) {
+		case 0:
+			return tagArg{name: name, items: []string{""}}
+		case 1:
+			return tagArg{name: name, items: []string{"true"}}
+		}
+		return tagArg{name: name, items: []string{"false"}}
+	case k < 5:
+		a := tagArg{name: genName2(r)}
+		for n := 1 + r.Intn(2); n > 0; n-- {
+			a.items = append(a.items, genBalanced(r, 0, true))
+		}
+		return a
+	}
+	return tagArg{name: genName2(r), items: []string{""}}
+}
+
+func renderArgSeg(a tagArg, bare bool) string {
+	if bare {
+		return a.name
+	}
+	return a.name + "=" + strings.Join(a.items, " ")
+}
+
+// genTagB: one binding case. Half of them around `timeLayout` on a time.Time field, half around `mapper` on a struct.
+func genTagB(r *hx.Rng, w *hx.Writer) {
+	e2e := r.P(1, 8)
+	exp := &tagExpect{val: "k" + string(rune('a'+r.Intn(26))) + string(rune('a'+r.Intn(26)))}
+	if !e2e && r.P(1, 4) {
+		exp.val = genBalanced(r, 0, true)
+	}
+	seg := []string{}
+	add := func(a tagArg, bare bool) {
+		exp.args = append(exp.args, a)
+		seg = append(seg, renderArgSeg(a, bare))
+	}
+	others := func(n int) {
+		for ; n > 0; n-- {
+			a := genBindOther(r, e2e)
+			add(a, len(a.items) == 1 && a.items[0] == "" && r.P(1, 2))
+		}
+	}
+	// an argument without a value, in its legal spellings
+	empty := func(name string) {
+		add(tagArg{name: name, items: []string{""}}, r.Bool())
+	}
+	if r.Bool() {
+		// timeLayout
+		name := []string{"timeLayout", "TimeLayout"}[r.Intn(2)]
+		layout, shape := genLayout(r)
+		t := genTime(r)
+		value := t.Format(layout)
+		if shape == "blank" {
+			value = t.Format(layout[:strings.IndexByte(layout, ' ')]) // what the first item alone reads
+			if r.P(1, 3) {
+				value = t.Format(layout)
+			}
+		}
+		label := "value-formatted"
+		if r.P(1, 6) {
+			label = "value-damaged"
+			b := []byte(value)
+			switch r.Intn(4) {
+			case 0:
+				if len(b) > 0 {
+					b = b[:len(b)-1]
+				}
+			case 1:
+				if len(b) > 0 {
+					b = b[1:]
+				}
+			case 2:
+				if len(b) > 0 {
+					b[r.Intn(len(b))] = "x9 .0"[r.Intn(5)]
+				}
+			default:
+				b = append(b, ".5x"[r.Intn(3)])
+			}
+			value = string(b)
+		}
+		others(r.Intn(3))
+		form := "item"
+		switch k := r.Intn(20); {
+		case k < 14:
+			add(tagArg{name: name, items: strings.Split(layout, " ")}, false)
+			if shape != "blank" {
+				exp.args[len(exp.args)-1].items = []string{layout}
+			}
+		case k < 17:
+			form = "no-value"
+			empty(name)
+		case k < 18:
+			form = "absent"
+		default: // written twice: the last one counts
+			form = "twice"
+			other, _ := genLayout(r)
+			add(tagArg{name: []string{"timeLayout", "TimeLayout"}[r.Intn(2)], items: []string{other}}, false) // (its items do not matter: overwritten)
+			others(r.Intn(2))
+			add(tagArg{name: name, items: strings.Split(layout, " ")}, false)
+			if shape != "blank" {
+				exp.args[len(exp.args)-1].items = []string{layout}
+			}
+		}
+		if r.P(1, 5) {
+			empty([]string{"mapper", "Mapper"}[r.Intn(2)])
+		}
+		others(r.Intn(2))
+		kind := byte('t')
+		if e2e {
+			kind = "TTV"[r.Intn(3)]
+			if kind == 'V' {
+				exp.val = "${" + exp.val + "}"
+			}
+		}
+		text := strings.Join(append([]string{exp.val}, seg...), ",")
+		exp.args = dedupeArgs(exp.args)
+		runTagB(kind, text, value, exp, []string{"bind", "bind-time", "layout-" + shape, "arg-" + form, label, "route-" + string(kind)}, w)
+		return
+	}
+	// mapper
+	name := []string{"mapper", "Mapper"}[r.Intn(2)]
+	others(r.Intn(3))
+	form := "item"
+	switch k := r.Intn(20); {
+	case k < 7:
+		form = "no-value"
+		empty(name)
+	case k < 14:
+		add(tagArg{name: name, items: []string{[]string{"yaml", "json", "toml", "mapstructure", "json", "yaml"}[r.Intn(6)]}}, false)
+	case k < 16:
+		form = "other-name"
+		add(tagArg{name: name, items: []string{[]string{"xml", "Yaml", "JSON", "[json]", "(yaml)", "js on"[:2], genAtom(r, false)}[r.Intn(7)]}}, false)
+	case k < 18:
+		form = "several-items"
+		add(tagArg{name: name, items: []string{[]string{"json", "toml", ""}[r.Intn(3)], []string{"yaml", "json"}[r.Intn(2)]}}, false)
+	case k < 19:
+		form = "absent"
+	default:
+		form = "twice"
+		add(tagArg{name: []string{"mapper", "Mapper"}[r.Intn(2)], items: []string{[]string{"json", "toml", ""}[r.Intn(3)]}}, false)
+		others(r.Intn(2))
+		add(tagArg{name: name, items: []string{[]string{"yaml", "json", "toml", ""}[r.Intn(4)]}}, false)
+	}
+	if r.P(1, 4) {
+		empty([]string{"timeLayout", "TimeLayout"}[r.Intn(2)])
+	}
+	others(r.Intn(2))
+	kind := byte('m')
+	if e2e {
+		kind = 'M'
+	}
+	text := strings.Join(append([]string{exp.val}, seg...), ",")
+	exp.args = dedupeArgs(exp.args)
+	runTagB(kind, text, "", exp, []string{"bind", "bind-mapper", "arg-" + form, "route-" + string(kind)}, w)
+}
+
+// genTagF: lookups on structured tags (half of them with arguments written without a value and with repeated blanks
+// between items, which leave empty items), on the forms of required-ness, and on arbitrary bytes
+func genTagF(r *hx.Rng, w *hx.Writer) {
+	switch k := r.Intn(10); {
+	case k < 4:
+		s, exp := genStructured(r)
+		runTagF(s, exp, []string{"find", "structured", fmt.Sprintf("args%d", len(exp.args))}, w)
+	case k < 7:
+		// arguments without a value / with empty items between the others
+		exp := &tagExpect{val: genBalanced(r, 0, true)}
+		seg := []string{exp.val}
+		for n := 1 + r.Intn(4); n > 0; n-- {
+			a := tagArg{name: genName(r)}
+			switch r.Intn(4) {
+			case 0:
+				a.items = []string{""}
+				exp.args = append(exp.args, a)
+				seg = append(seg, a.name)
+				continue
+			case 1:
+				a.items = []string{""}
+			default:
+				for m := 1 + r.Intn(3); m > 0; m-- {
+					if r.P(1, 3) {
+						a.items = append(a.items, "")
+					} else {
+						a.items = append(a.items, genBalanced(r, 0, true))
+					}
+				}
+			}
+			exp.args = append(exp.args, a)
+			seg = append(seg, a.name+"="+strings.Join(a.items, " "))
+		}
+		exp.args = dedupeArgs(exp.args)
+		runTagF(strings.Join(seg, ","), exp, []string{"find", "empty-items"}, w)
+	case k < 8:
+		s, exp := genReqTag(r)
+		runTagF(s, exp, []string{"find", "req-forms"}, w)
+	default:
+		s := genBytes(r)
+		tags := []string{"find", "bytes"}
+		if !strings.ContainsAny(s, ",") {
+			tags = append(tags, "trivial")
+		}
+		runTagF(s, nil, tags, w)
+	}
+}
+
 func tagReplay(scn string, w *hx.Writer) {
+	scn = strings.TrimPrefix(scn, "# ")
 	f := strings.Fields(scn)
+	if len(f) >= 3 && f[0] == "B" && len(f[1]) == 1 {
+		text, e1 := hx.UnHex(f[2])
+		value, e2 := "", error(nil)
+		if len(f) == 4 {
+			value, e2 = hx.UnHex(f[3])
+		}
+		isTime := strings.Contains("tTV", f[1])
+		if e1 == nil && e2 == nil && strings.Contains("mtMTV", f[1]) && (len(f) == 4) == isTime {
+			runTagB(f[1][0], text, value, nil, []string{"replay"}, w)
+		}
+		return
+	}
 	if len(f) == 3 && f[0] == "U" {
 		if s, err := hx.UnHex(f[2]); err == nil {
 			runTagU(f[1], s, nil, []string{"replay"}, w)
@@ -974,6 +1695,8 @@ func tagReplay(scn string, w *hx.Writer) {
 	switch f[0] {
 	case "P":
 		runTagP(s, nil, []string{"replay"}, w)
+	case "F":
+		runTagF(s, nil, []string{"replay"}, w)
 	case "S":
 		runTagS(s, []string{"replay"}, w)
 	}
@@ -1015,6 +1738,33 @@ func tagCorpus(w *hx.Writer) {
 		for _, mc := range []string{"d00", "s00", "s10", "s21", "t00", "t10", "t12", "a10"} {
 			runTagH(mc[0], mc[1:], fmt.Sprintf("h%d%s.", i, mc)+h.t, h.ops, fmt.Sprintf("h%d%s.", i, mc)+h.t2, nil, []string{"corpus", "history"}, w)
 		}
+	}
+	// seventh round: nested blocks of one kind whose inner closer comes before a comma of the outer block
+	for _, s := range []string{"${motd.${lang}:Welcome, stranger}", "${motd.${lang}:Welcome, stranger},required", "#{max(${low:1},${quota.${tier}:100})},validate=min=1 max=3",
+		"f(g(a),b),x=(p(q),r) s", "[[a],b],q=[[c] d,e]", "{a{b}c,d{e}},{f}={{g},h}"} {
+		runTagP(s, nil, []string{"corpus"}, w)
+		runTagS(s, []string{"corpus"}, w)
+		runTagF(s, nil, []string{"corpus", "find"}, w)
+	}
+	// lookups: arguments without a value, empty items between blanks
+	for _, s := range []string{"app,mapper", "app,mapper=", "app,Mapper=,required=true,validate", "${day},timeLayout=", "${day},required=false,timeLayout",
+		"abc,validate=required  min=3", "a,x=a  b", "a,x= ", "a,x=  ", "a,x", "a,X=,x=1", ",=", "a,required=false,Required"} {
+		runTagF(s, nil, []string{"corpus", "find"}, w)
+	}
+	// consumers: mapper / timeLayout without a value, bracketed layouts (the brackets are part of the item)
+	for _, s := range []string{"app,mapper", "app,mapper=", "app,Mapper=,required=true", "app,mapper=json", "app,mapper=yaml", "app,mapper=[json]", "app,mapper=xml",
+		"app,mapper=json yaml", "app", "app,timeLayout", "app,timeLayout=,mapper"} {
+		runTagB('m', s, "", nil, []string{"corpus", "bind"}, w)
+		runTagB('M', s, "", nil, []string{"corpus", "bind"}, w)
+	}
+	for _, tv := range [][2]string{{"day,timeLayout=2006-01-02", "2024-05-06"}, {"day,timeLayout=[2006-01-02]", "[2024-05-06]"}, {"day,Required=true,TimeLayout=(2006-01-02 15:04)", "(2024-05-06 17:30)"},
+		{"day,timeLayout={2006-01-02}", "{2024-05-06}"}, {"day,timeLayout=(2006) 01", "(2024)"}, {"day,timeLayout=2006-01-02 15:04:05", "2024-05-06"},
+		{"day,timeLayout=2006-01-02 15:04:05", "2024-05-06 17:30:00"}, {"day,timeLayout=[2006-01-02]", "2024-05-06"}, {"day,timeLayout=", "2024-05-06"},
+		{"day,required=false,timeLayout", "2024-05-06"}, {"day,timeLayout=,mapper", "x"}, {"day", "2024-05-06"}, {"day,timeLayout=[02/Jan/2006:15:04:05]", "[06/May/2024:17:30:00]"},
+		{"day,timeLayout=05.01", "07.03"}, {"day,timeLayout=2006-01-02,timeLayout=[2006]", "[2024]"}} {
+		runTagB('t', tv[0], tv[1], nil, []string{"corpus", "bind"}, w)
+		runTagB('T', tv[0], tv[1], nil, []string{"corpus", "bind"}, w)
+		runTagB('V', "${day}"+tv[0][3:], tv[1], nil, []string{"corpus", "bind"}, w)
 	}
 }
 
@@ -1247,5 +1997,15 @@ func tagGen(rng *hx.Rng, n int, tier string, w *hx.Writer) {
 		if r.P(1, 10) {
 			genTagH(r.Fork(), w)
 		}
+	}
+	// seventh round, after the main stream (whose cases stay what they were): lookups through the public API and the
+	// consumers of arguments in Property.Unmarshall
+	fr := rng.Fork()
+	for i := 0; i < (n+11)/12; i++ {
+		genTagF(fr.Fork(), w)
+	}
+	br := rng.Fork()
+	for i := 0; i < (n+19)/20; i++ {
+		genTagB(br.Fork(), w)
 	}
 }
